@@ -527,7 +527,10 @@ static Verdict run_C11(const Scn &s) {
   Bytes F2 = apply_faults(s, B, key);
   bool tagok = tag_valid_ref(F2, key);
   Diff d = diff_files(B.F, F2, B.e.hmode);
-  if (tagok && d.informative) return skipv("valid-tag-but-not-produced-by-encryption(outside-domain)");
+  // A file whose tag verifies although it did not come out of this encryption (a splice of two files under one key that happens
+  // to keep a valid tag, the mode byte changed: K1) is "authentic" as far as C11 can tell: acceptance is C05's question, but it
+  // is still a byte string, and must be handled without crash, hang, out-of-bounds access or surplus output.
+  if (tagok && d.informative) g_stats.add("probe.valid_tag_not_from_this_encryption(termination_and_bounds_only)", 1);
   warm_up(s, B);
   // "tmis": the reader is constructed for another number of streams than the writer was (the format does not record it)
   int Tdec = B.T;
